@@ -70,12 +70,58 @@ def gen_leaves(repo, out, report):
             else:
                 text = '-- TRANSLATOR-SKIP (%s): no baseline available\n' % e
         parts.append((spec['lean'], text))
-    body = '\n'.join(t for _, t in parts)
     hdr = ('/- GENERATED by tools/translate/translate.py from the current /repo working tree.\n'
            '   Do not edit; regenerated on every check run. -/\n'
            'import Beeb.Model.CInt\n\nnamespace Beeb.Gen\n\n')
-    write_if_changed(os.path.join(out, 'Leaf.lean'), hdr + body + '\nend Beeb.Gen\n')
+    # A translation that does not elaborate (e.g. the C++ now uses a construct the translator renders
+    # badly) must not take the whole model down: such a leaf falls back to its baseline like any other skip.
+    for _ in range(len(parts) + 1):
+        text = hdr + '\n'.join(t for _, t in parts) + '\nend Beeb.Gen\n'
+        bad = elaboration_errors(text, out)
+        if not bad:
+            break
+        lines = text.split('\n')
+        start = len(hdr.split('\n')) - 1
+        spans = []
+        for name, t in parts:
+            n = len(t.split('\n'))
+            spans.append((name, start + 1, start + n))
+            start += n
+        hit = set()
+        for (ln, msg) in bad:
+            for (name, a, b) in spans:
+                if a <= ln <= b:
+                    hit.add((name, msg))
+        if not hit:
+            break
+        for (name, msg) in hit:
+            base = os.path.join(HERE, 'baseline', name + '.lean')
+            if any(sk['leaf'] == name for sk in report['skipped']):
+                continue
+            report['skipped'].append({'leaf': name, 'reason': 'generated Lean does not elaborate: ' + msg[:200]})
+            if name in report['translated']:
+                report['translated'].remove(name)
+            repl = ('-- TRANSLATOR-SKIP (does not elaborate: %s): pinned baseline rendering\n' % msg[:120].replace('\n', ' ') + open(base).read()) if os.path.exists(base) else '-- TRANSLATOR-SKIP: no baseline\n'
+            parts = [(n, repl if n == name else t) for (n, t) in parts]
+    write_if_changed(os.path.join(out, 'Leaf.lean'), hdr + '\n'.join(t for _, t in parts) + '\nend Beeb.Gen\n')
     return dict(parts)
+
+
+def elaboration_errors(text, out):
+    """[(line, message)] from running Lean on the candidate Leaf.lean (in a scratch file next to the real one)"""
+    import re, subprocess, tempfile
+    lean_dir = os.path.abspath(os.path.join(out, '..', '..'))
+    fd, tmp = tempfile.mkstemp(suffix='.lean', prefix='LeafCandidate', dir=tempfile.gettempdir())
+    try:
+        with os.fdopen(fd, 'w') as f:
+            f.write(text)
+        r = subprocess.run(['lake', 'env', 'lean', tmp], cwd=lean_dir, capture_output=True, text=True, timeout=300)
+        errs = []
+        for m in re.finditer(r'^[^\n:]*:(\d+):\d+: error[^:\n]*: ([^\n]*)', r.stdout + r.stderr, re.M):
+            errs.append((int(m.group(1)), m.group(2)))
+        return errs
+    finally:
+        os.unlink(tmp)
 
 
 def write_if_changed(path, text):
